@@ -158,14 +158,34 @@ def run_stage(stage, tier, seed, extra_args=()):
     args = [HBIN, stage] + (["--thorough"] if tier == "thorough" else []) + list(extra_args)
     e = env()
     e["VERIF_SEED"] = str(seed)
-    h = subprocess.run(args, capture_output=True, text=True, env=e)
-    recs = h.stdout.splitlines()
+    # a stage that does not finish is reported as non-termination (C08): the harness traces
+    # the input of the case it is working on to stderr
+    e["PM_TRACE"] = "1"
+    limit = 900 if tier == "quick" else 7200
+    timed_out = False
+    try:
+        h = subprocess.run(args, capture_output=True, text=True, env=e, timeout=limit)
+        out, err, rc = h.stdout, h.stderr, h.returncode
+    except subprocess.TimeoutExpired as te:
+        timed_out = True
+        out = (te.stdout or b"").decode(errors="replace") if isinstance(te.stdout, bytes) else (te.stdout or "")
+        err = (te.stderr or b"").decode(errors="replace") if isinstance(te.stderr, bytes) else (te.stderr or "")
+        rc = -9
+        out = out[: out.rfind("\n") + 1]
+    recs = out.splitlines()
+    traces = [l for l in err.splitlines() if l.startswith("TRACE E2E") or l.startswith("TRACE ")]
     info = {
         "stage": stage,
         "records": len(recs),
-        "harness_rc": h.returncode,
-        "harness_err": h.stderr[-2000:],
+        "harness_rc": rc,
+        "harness_err": "\n".join(l for l in err.splitlines() if not l.startswith("TRACE"))[-2000:],
+        "timed_out": timed_out,
+        "last_case_started": ([l for l in traces if l.startswith("TRACE E2E")] or [""])[-1][:3000] if timed_out else "",
     }
+    class _H:  # keep the rest of the function unchanged
+        pass
+    h = _H()
+    h.stdout, h.returncode = out, rc
     d = subprocess.run([DRIVER], input=h.stdout, capture_output=True, text=True, env=e)
     verdicts = d.stdout.splitlines()
     info["driver_rc"] = d.returncode
@@ -380,7 +400,11 @@ def check(pid, tier, seed):
             info.update({k: len(v) for k, v in cl.items()})
             stages_info.append(info)
             evaluations += len(recs)
-            if info["harness_rc"] != 0 or info["driver_rc"] != 0 or len(verdicts) != len(recs):
+            if info.get("timed_out"):
+                violations.append(("oracle", {"stage": stage, "record": info["last_case_started"],
+                                              "verdict": "C08 a case did not finish within the stage time limit (non-termination or blow-up); record = input of the case that was running",
+                                              "property": pid}, bool(info["last_case_started"])))
+            elif info["harness_rc"] != 0 or info["driver_rc"] != 0 or len(verdicts) != len(recs):
                 violations.append(("pipeline", {"what": "harness or driver failed", "info": info}, False))
             for i, rec, v in cl["ok"]:
                 toks = v.split()
